@@ -129,6 +129,17 @@ class Run(object):
         self.cur_ep = None
         f = RecFile(self, x)
         req = Request(url_of(x), method=cm['method'])
+        post = ex.get('post')
+        if post is not None and cm['method'] == 'GET':
+            # a request WITH a body (--post-data), built the way the web processor builds it; for the framing of the
+            # response it is a GET
+            from wpull.body import Body
+            req.method = 'POST'
+            req.fields['Content-Type'] = 'application/x-www-form-urlencoded'
+            req.fields['Content-Length'] = str(len(post))
+            req.body = Body(io.BytesIO())
+            req.body.write(post)
+            req.body.seek(0)
         out = 'ok'
         try:
             with client.session() as s:
